@@ -10,4 +10,14 @@ CHECKS = {
        'rectangles on an edge lattice of tiny grids are enumerated completely. Exploration is the right level: the statement '
        'quantifies over an infinite numeric domain whose failures cluster at float boundaries, which the generator targets.',
   note='Trusts CPython fractions/float semantics and Hypothesis; tolerance tau and the accepted (tau, 0.1 px] band are stated in the evidence assumptions.'),
+ 'C15': dict(
+  category='exploration',
+  design_ref='DESIGN.md section 16',
+  technique='harness-owned completion order (per-item events + gated consumer thread); bounded-exhaustive enumeration of completion orders x pool sizes x failing subsets x modes x entry points, plus Hypothesis random schedules for n = 5-6; identity-based value/exception oracle; watchdog-bounded liveness',
+  text='Every completion (release) order of up to 4 (quick) / 5 (thorough) items x pool sizes 1..n+1 x every failing subset x raise / result-object / '
+       'abandon-at-first-error modes x 12 entry points of mapproxy.util.async_ is enumerated completely, with the consumer\'s progress interleaved by 6 fixed '
+       'patterns; n = 5-6 is explored randomly with free interleavings. Each run is judged by a timing-independent oracle: exactly one result per input in '
+       'input order, the exact exception object of the failing item (or a re-raise of one of them after a correct prefix), termination, and all pool threads exiting.',
+  note='Exhaustive at completion-order x consumer-progress granularity; which of the pool\'s two drain loops handles a result depends on OS timing and is '
+       'measured (class drain:*), not controlled. Liveness is bounded by a watchdog (expiry = harness error unless all tasks were released). Fresh pool per case.'),
 }
